@@ -6,14 +6,15 @@
    Every rule carries, as hypotheses, the excuses the property grants (the tag is not disabled;
    link rel=alternate only with --capture-alternate-pages) and the NAMED exclusions of the code
    (well-formedness of srcset / CSS values as defined in Plant.v, [css_kept], [style_attr_skip]).
-   The exclusions that contradict the property text are listed as known findings with witnesses
-   (ScanProofs.v: srcset_comma_refuted, srcset_tab_refuted, style_attr_percent_refuted,
-   css_slashslash_refuted). *)
+   The exclusion that contradicts the property text is a known finding with a witness
+   (ScanProofs.v: style_attr_percent_refuted).  The exclusions the code as found had for
+   srcset values (commas, tabs) and for url() in style elements (quotes, double slashes) are
+   repaired; the old behaviour is kept as _orig definitions with refutation witnesses. *)
 From Coq Require Import List Ascii String NArith ZArith Bool.
 From ZenoV Require Import Lib.Hex Html.Bytes Html.Scan Html.Html Html.Plant.
 Import ListNotations.
 
-Definition wf_srcset (cs : list scand) : Prop := Forall (fun x => wf_cand x = true) cs.
+Definition wf_srcset (cs : list scand) : Prop := wf_cands cs = true.
 
 Inductive referenced (c : cfg) (e : node) : bytes -> Prop :=
 | ref_img_src u :
